@@ -464,11 +464,35 @@ fn append_ret(core: &Core) -> Core {
             class: class.clone(),
             body: Box::from(append_ret(body)),
         },
-        core if skip_return(core) => core.clone(),
+        Core::If { cond, then } => Core::If {
+            cond: cond.clone(),
+            then: Box::from(append_ret(then)),
+        },
+        core if skip_return(core) || is_statement(core) => core.clone(),
         _ => Core::Return {
             expr: Box::from(core.clone()),
         },
     }
+}
+
+/// Constructs which are statements in Python: there is no value which can be returned.
+fn is_statement(core: &Core) -> bool {
+    matches!(
+        core,
+        Core::For { .. }
+            | Core::While { .. }
+            | Core::With { .. }
+            | Core::WithAs { .. }
+            | Core::VarDef { .. }
+            | Core::Assign { .. }
+            | Core::Pass
+            | Core::Break
+            | Core::Continue
+            | Core::ClassDef { .. }
+            | Core::FunDef { .. }
+            | Core::FunDefOp { .. }
+            | Core::Import { .. }
+    )
 }
 
 fn skip_assign(core: &Core) -> bool {
